@@ -2,6 +2,7 @@ import Model.Pub
 import Model.Feed
 import Model.History
 import Model.Select
+import Model.Style
 
 /-
   `ui/ui.go`: `State.Update` and what it calls (`switchTo`, `loadSurroundings`, `subcommand`,
@@ -283,5 +284,38 @@ def run (w : World) (s : State) : List Nat → Except Panic State
 /-- `NewState` followed by `Subcommand("open", arg)`, settled. -/
 def start (w : World) (context : Nat) (arg : Str) : Except Panic State :=
   openItem w { context := context } (fetchUserInput w arg)
+
+end Ui
+
+namespace Ui
+
+/-- The last step of `view()`: centre the three parts vertically, then (when the mode has a
+    status line) replace the last line by the highlighted, length-adjusted footer.  `top`,
+    `center`, `bottom` are whatever the items rendered to. -/
+def frame (c : Colors) (top center bottom : Str) (footer : Option Str) (width : Int) (height : Nat) :
+    Except Panic Str :=
+  let out := Ansi.centerVertically top center bottom height
+  match footer with
+  | none => .ok out
+  | some f =>
+    match Ansi.setLength f width ['…'] with
+    | .error e => .error e
+    | .ok t => Ansi.replaceLastLine out (Style.highlight c t)
+
+/-- The footer `view()` shows in each mode (`none` = no status line). -/
+def footerOf (s : State) : Option Str :=
+  match s.mode with
+  | .normal | .loading => none
+  | .selection => some ("Selecting ".toList ++ s.buffer ++ " (press . to open internally, enter to open externally)".toList)
+  | .command => some (':' :: s.buffer)
+  | .opening => some ("Opening ".toList ++ s.buffer ++ ['…'])
+  | .problem => if s.buffer.isEmpty then none else some s.buffer
+
+/-- Representation invariant of the UI state: outside loading mode a page exists; in selection
+    mode the buffer is a non-empty digit string. -/
+def Inv (s : State) : Prop :=
+  (s.mode ≠ .loading → s.hist.index < s.hist.elements.length) ∧
+  (s.hist.elements = [] → s.hist.index = 0) ∧
+  (s.mode = .selection → s.buffer ≠ [] ∧ ∀ ch ∈ s.buffer, ch.isDigit = true)
 
 end Ui
